@@ -14,7 +14,9 @@ import c05_src
 PROPERTY = "C05"
 LEAN_TARGETS = ["QcelVerif.Props.C05", "QcelVerif.Driver.C05",
                 # source-derived procedure: expression language + evaluator, the terms regenerated from chgmult.py, vfcSrc, lemmas, theorems
-                "QcelVerif.Model.ChgMultAst", "QcelVerif.Gen.ChgMultSrc", "QcelVerif.Model.ChgMultSrc", "QcelVerif.Lemmas.ChgMultAst", "QcelVerif.Props.C05Src"]
+                "QcelVerif.Model.ChgMultAst", "QcelVerif.Gen.ChgMultSrc", "QcelVerif.Model.ChgMultSrc", "QcelVerif.Lemmas.ChgMultAst", "QcelVerif.Props.C05Src",
+                # full specifications: never altered, accepted iff the rules hold (both procedures)
+                "QcelVerif.Props.C05Full"]
 DRIVER = "QcelVerif/Driver/C05.lean"
 # lean/QcelVerif/Gen/ChgMultSrc.lean <- chgmult.py (rule lambdas with guards/loops, candidate-list statements, product order), by `ast`, every run
 TRANSLATORS = [c05_src.gen_chgmult_src]
@@ -43,6 +45,13 @@ THEOREMS = [
     ("QcelVerif.ChgMult.vfc_accepts_valid_full_src", "a fully specified assignment obeying Rules is returned as is by vfcSrc"),
     ("QcelVerif.ChgMult.vfc_idem_src", "vfcSrc i = ok o -> vfcSrc (specifiedBy i o) = ok o"),
     ("QcelVerif.ChgMult.vfc_default_src", "nothing specified, electron counts >= 0 -> vfcSrc gives the neutral / lowest-multiplicity default"),
+    # --- full specifications (Props/C05Full.lean): the converse of vfc_accepts_valid_full and "keeps every supplied value" put together
+    ("QcelVerif.ChgMult.vfc_full_returns_input", "zero_ghost_fragments=False: whatever vfc returns on a fully specified input IS that input (any fragment count) - it can be refused, never changed"),
+    ("QcelVerif.ChgMult.vfc_full_iff", "a fully specified assignment is returned iff it obeys Rules"),
+    ("QcelVerif.ChgMult.vfc_full_rejects_invalid", "a well-formed fully specified assignment that breaks a rule raises ValidationError (neither returned nor repaired)"),
+    ("QcelVerif.ChgMult.vfc_full_returns_input_src", "[regenerated from chgmult.py] the same of vfcSrc"),
+    ("QcelVerif.ChgMult.vfc_full_iff_src", "[regenerated from chgmult.py] the same of vfcSrc"),
+    ("QcelVerif.ChgMult.vfc_full_rejects_invalid_src", "[regenerated from chgmult.py] the same of vfcSrc"),
 ]
 TRUSTED_BASE = [
     "Lean 4.33 kernel; axioms per theorem audited on every run (subset of propext, Classical.choice, Quot.sound)",
